@@ -3174,16 +3174,22 @@ sse_rule_convsssql_sse41 (OrcCompiler *p, void *user, OrcInstruction *insn)
 {
   const int src = p->vars[insn->src_args[0]].alloc;
   const int dest = p->vars[insn->dest_args[0]].alloc;
+  // BLENDVPD uses XMM0 as its implicit mask.  Temporaries are handed out in
+  // ascending order, so take the backup register first: if XMM0 is free it
+  // is this one (nothing to save), and none of the constants below can end
+  // up in XMM0 and be overwritten by the mask.
+  const int src_backup = orc_compiler_get_temp_reg (p);
   const int tmpc_max = orc_compiler_get_temp_constant (p, 8, INT32_MAX);
   const int tmpc_min = orc_compiler_get_temp_constant (p, 8, INT32_MIN);
-  const int src_backup = orc_compiler_get_temp_reg (p);
   const int tmp = orc_compiler_get_temp_reg (p);
   // Operate over tmp, because we don't know if src or dest are X86_XMM0
   orc_sse_emit_movdqa (p, src, tmp);
   if (src == X86_XMM0) {
     orc_sse_emit_movdqa (p, src, src_backup);
   } else {
-    orc_sse_emit_movdqa (p, X86_XMM0, src_backup);
+    if (src_backup != X86_XMM0) {
+      orc_sse_emit_movdqa (p, X86_XMM0, src_backup);
+    }
     orc_sse_emit_movdqa (p, src, X86_XMM0);
   }
   // Apply the same logic as in AVX, only that
@@ -3197,7 +3203,7 @@ sse_rule_convsssql_sse41 (OrcCompiler *p, void *user, OrcInstruction *insn)
   // Undo the changes to src or X86_XMM0 (if the latter is not dest)
   if (src == X86_XMM0 && src != dest) {
     orc_sse_emit_movdqa (p, src_backup, src);
-  } else if (dest != X86_XMM0) {
+  } else if (dest != X86_XMM0 && src_backup != X86_XMM0) {
     orc_sse_emit_movdqa (p, src_backup, X86_XMM0);
   }
 }
